@@ -368,6 +368,11 @@ def check_mesh_elem(ctx, mc, rec, tag_extra=None, only_nvf=None):
         u0 = u0 if isinstance(u0, tuple) else (u0,)
         u1 = u1 if isinstance(u1, tuple) else (u1,)
         nn = np.array(fb0.normals)
+        # the two one-sided bases speak of the same facets: they deliver the same normal field at the shared points (the
+        # normal trace u.n a caller forms on each side with that basis' own normal is what the statement is about)
+        n1 = np.array(fb1.normals)
+        ctx.close("normal-component-continuous/facetbasis" if rec.family == "hdiv" else "value-continuous/facetbasis", n1, nn, rtol=1e-9,
+                  scale=1.0, mech="one-sided-facet-bases-disagree-on-the-normal", elem=rec.name, mesh=type(mesh).__name__, desc=mc.desc)
         # magnitude of contributions for the scale
         ed0 = np.asarray(fb0.element_dofs)
         for ci, cr in enumerate(comp_recs):
